@@ -43,6 +43,7 @@ KINDS = ["valid", "valid", "valid", "dup-id", "dup-uid", "foreign-arch", "foreig
          "cycle-respelled", "attached-elsewhere", "attached-elsewhere-respelled", "detached-subtree", "detached-dup-subtree"]
 CLASS_FLOORS = dict(("op-" + k, 10) for k in set(KINDS))
 CLASS_FLOORS["op-detached-child"] = 10
+CLASS_FLOORS["child-of-doubled-dashed-top-shadows-child-of-head"] = 3
 CLASS_FLOORS["detached-subtree-refused-for-inner-uid"] = 5
 CLASS_FLOORS.update({"ten-or-more-siblings": 10, "depth-3": 10, "dashed-top": 5, "after-reload": 10, "query-recursive": 50, "query-arch-nobody-has": 20,
                      "query-arch-src": 20, "query-types-subset": 50, "query-self": 10, "query-inner": 20,
@@ -183,6 +184,15 @@ def gen_history(rng):
                 vid = rng.choice([F.specs[a]["id"] for a in F.ancestors_or_self(target)])    # child id repeating an ancestor's id
                 if "-" in vid or not vid.isalnum():
                     continue
+            if kind == "valid" and par is not None and par.get("dashed") and par["uid"].count("-") == 1 and \
+                    par["uid"].split("-")[0] == par["uid"].split("-")[1] and rng.random() < 0.6:
+                # a child of the doubled dashed variant that carries the id of a child of its plain head
+                head = [h0 for h0 in F.parent if F.parent[h0] is None and F.specs[h0]["uid"] == par["uid"].split("-")[0]]
+                sib_ids = [F.specs[c0]["id"] for h0 in head for c0 in F.children(h0)]
+                sib_ids = [x for x in sib_ids if x not in used]
+                if sib_ids:
+                    vid = rng.choice(sib_ids)
+                    break
             if kind == "dup-id":
                 if used:
                     vid = rng.choice(sorted(used))
@@ -216,6 +226,12 @@ def gen_history(rng):
             # a top-level variant with a dashed UID ('Server-Tools', id 'ServerTools') - also NEXT TO a top-level 'Server'
             # (whose children's UIDs then interleave with it in UID order)
             a, b = rng.choice(["Server", "Server", "E", "Q"]), rng.choice(["Tools", "Extras", "Z", "a1"])
+            heads_with_children = [F.specs[h0]["uid"] for h0 in F.parent if F.parent[h0] is None and "-" not in F.specs[h0]["uid"] and
+                                   F.specs[h0]["uid"].isalnum() and F.children(h0)]
+            if heads_with_children and rng.random() < 0.5:
+                a = b = rng.choice(heads_with_children)
+            elif rng.random() < 0.1:
+                b = a          # 'E-E' (id 'EE') next to 'E': inside 'E' the remainder 'E-<child>' reads like a child's own UID
             if a + b not in used and (a + "-" + b) not in uids and not any(u.startswith(a + "-" + b + "-") for u in uids) and \
                     not (a in uids and any(F.specs[c]["id"] == b for h0 in F.parent if F.specs[h0]["uid"] == a for c in F.children(h0))):
                 spec["id"], spec["uid"] = a + b, a + "-" + b
@@ -716,6 +732,13 @@ def check_history(ctx, pm, H, seed, exhaustive_queries=False):
         ctx.count("ten-or-more-siblings")
     if any(s.get("dashed") for hh, s in enumerate(F.specs) if hh in F.parent):
         ctx.count("dashed-top")
+    for hh in F.parent:
+        sp = F.specs[hh]
+        if F.parent[hh] is not None and F.specs[F.parent[hh]].get("dashed"):
+            pu = F.specs[F.parent[hh]]["uid"].split("-")
+            if len(pu) == 2 and pu[0] == pu[1] and snap.get(pu[0] + "-" + sp["id"], {}).get("parent") == pu[0]:
+                ctx.count("child-of-doubled-dashed-top-shadows-child-of-head")
+                break
     for hh in F.parent:
         anc = F.ancestors_or_self(hh)[1:]
         if any(F.specs[a]["id"] == F.specs[hh]["id"] for a in anc):
